@@ -26,6 +26,9 @@ pub enum CostSpec {
     Const(u64),
     /// cost = table[opcode byte % table.len()]
     Table(Vec<u64>),
+    /// the price of an operation depends on the whole operation, immediates included (the cost
+    /// function is handed the `Op`, not the opcode): `Push(w)` costs `1 + |w| mod m`, others 2
+    ByOperand(u64),
 }
 
 impl CostSpec {
@@ -37,6 +40,10 @@ impl CostSpec {
                 let b: u8 = op.to_opcode().into();
                 t[b as usize % t.len()]
             }
+            CostSpec::ByOperand(m) => match op {
+                Op::Stack(essential_asm::Stack::Push(w)) => 1 + w.unsigned_abs() % (*m).max(1),
+                _ => 2,
+            },
         }
     }
 }
